@@ -143,6 +143,30 @@ AnExplains(s, c, r) ==
                   /\ Cardinality(ToSet(r.res)) = Len(r.res)
       [] OTHER -> FALSE
 
+\* ------------------------------------------------------- big (closed form)
+\* Family "ivbig": trees far beyond the sizes TLC could replay entry by entry. The entries are an
+\* arithmetic family described by cfg = [kind, n, a, w]: entry i (0 <= i < n) is [a*i, a*i + w) with
+\* payload i, inserted in the order cfg.order ("asc" | "desc"). The overlap set of a query has the
+\* closed form  {i : Lo(q) <= i <= Hi(q)}  (lemma BigOverlapLemma, checked by TLC against the general
+\* definition for small n in AvlMC), so no entry list is needed.
+CeilDivI(x, y) == IF x <= 0 THEN -((-x) \div y) ELSE (x + y - 1) \div y           \* ceil(x / y), y > 0
+FloorDivI(x, y) == IF x >= 0 THEN x \div y ELSE -(((-x) + y - 1) \div y)           \* floor(x / y), y > 0
+BigLo(cfg, qs) == Max2(0, FloorDivI(qs - cfg.w, cfg.a) + 1)                      \* a*i + w > qs
+BigHi(cfg, qe) == Min2(cfg.n - 1, CeilDivI(qe, cfg.a) - 1)                        \* a*i < qe
+BigWant(cfg, qs, qe) ==
+    IF BigLo(cfg, qs) > BigHi(cfg, qe) THEN {}
+    ELSE {<<cfg.a * i, cfg.a * i + cfg.w, i>> : i \in BigLo(cfg, qs)..BigHi(cfg, qe)}
+BigExplains(cfg, s, c, r) ==
+    CASE c.op = "build" -> r.st = "ok" /\ r.n = cfg.n                 \* n inserts (+ index for the array tree)
+      [] c.op = "finds" ->
+           /\ r.st = "ok" /\ Len(r.res) = Len(c.a.qs)
+           /\ \A i \in 1..Len(c.a.qs) :
+                 LET want == BigWant(cfg, c.a.qs[i][1], c.a.qs[i][2]) IN
+                 /\ c.a.qs[i][1] < c.a.qs[i][2]
+                 /\ Len(r.res[i]) = Cardinality(want)
+                 /\ ToSet(r.res[i]) = want
+      [] OTHER -> FALSE
+
 Explains(fam, s, e) ==
     CASE fam = "avl"    -> AvlExplains(s, e.c, e.r)
       [] fam = "iitree" -> IIExplains(s, e.c, e.r)
@@ -163,7 +187,7 @@ Next ==
     /\ ok /\ idx < Len(Rec[run].ev)
     /\ LET R == Rec[run]
            e == R.ev[idx + 1]
-           good == Explains(R.fam, st, e)
+           good == IF R.fam = "ivbig" THEN BigExplains(R.cfg, st, e.c, e.r) ELSE Explains(R.fam, st, e)
        IN  /\ ok' = good
            /\ st' = IF good THEN After(R.fam, st, e) ELSE st
            /\ IF good
